@@ -71,7 +71,7 @@ ATOL = 1e-11
 KTOL = gen.TOL
 QUANT = 2.0 ** 20
 RULE = ('models: structured grids up to 2x2x2 / 3x2, L/T/U/O unions, corner-contact pairs, rings of 1-2 patches, tori, '
-        'two cubes in face/edge/corner contact, two volumes sharing a face with the neighbour in all 48 parametrisations x both insertion orders; surfaces (in 2D and 3D) and volumes; orders 2-3 with 2-5 control points per '
+        'orders 3-4 with interior knots of multiplicity 2..p-1 (knot spans != n-p+1), the same basis on both sides of every interface; two cubes in face/edge/corner contact, two volumes sharing a face with the neighbour in all 48 parametrisations x both insertion orders; surfaces (in 2D and 3D) and volumes; orders 2-3 with 2-5 control points per '
         'direction (refinement levels 0-3 of the same complex: finer lattice per patch), rational nets with shared '
         'weights; every patch in a random one of its 8/48 orientations (even ones for the trilinear face models), random '
         'insertion order (about half of them face-linked histories); trilinear right-handed volume models additionally '
@@ -80,7 +80,7 @@ RULE = ('models: structured grids up to 2x2x2 / 3x2, L/T/U/O unions, corner-cont
 REQUIRED_TAGS = ['pardim=2', 'pardim=3', 'faces', 'ofoam', 'ifem:nonempty', 'level=0', 'level=1', 'level=2',
                  'history:linked', 'history:unlinked', 'witness:edge-contact', 'witness:corner-contact',
                  'witness:L-corner-last', 'family:self-connected', 'rational', 'reoriented', 'orient:nonzero',
-                 'interface-faces', 'names>1', 'two-volumes-48']
+                 'interface-faces', 'names>1', 'two-volumes-48', 'cells:repeated-interior-knots']
 
 ALL = ['num', 'cps', 'faces', 'ofoam', 'ifem', 'plans']
 
@@ -209,6 +209,36 @@ def lattice_complex(rng, pardim, dim, cells, npts, orders, rational=False, jitte
             return tuple(cell[d] * L + idx[d] * (L // (npts[d] - 1)) for d in range(pardim))
         patches.append(cx.patch_from_lattice(rng, geom, lat_of, npts, bases))
     return {'family': family, 'pardim': pardim, 'dim': dim, 'patches': patches, 'flags': []}
+
+
+REPEATED = {
+    3: [[0.5, 0.5], [0.25, 0.5, 0.5], [0.25, 0.25, 0.75], [0.5, 0.5, 0.75, 0.75]],
+    4: [[0.5, 0.5], [0.5, 0.5, 0.5], [0.25, 0.25, 0.75], [0.25, 0.5, 0.5, 0.5], [0.375, 0.375, 0.375, 0.75, 0.75]],
+}
+
+
+def repeated_knot_complex(rng, pardim, dim, cells, rational=False, jitter=True, family='grid'):
+    """Orders 3-4 with interior knots of multiplicity 2..p-1 in at least one direction (what refine() followed by
+    raise_order(), or a repeated insert_knot, produces), the same basis on both sides of every interface: one
+    basis per global axis, control points on a common lattice (64 steps per cell; any net is a valid patch)."""
+    L = 64
+    geom = cx.Geometry(rng, pardim, dim, 1.0 / L, jitter, rational)
+    bases = []
+    rep_dirs = rng.sample(range(pardim), rng.randint(1, pardim))
+    for d in range(pardim):
+        if d in rep_dirs:
+            p = rng.choice([3, 4])
+            inner = rng.choice(REPEATED[p])
+            bases.append({'order': p, 'knots': [0.0] * p + list(inner) + [1.0] * p, 'periodic': -1})
+        else:
+            bases.append(cx.axis_basis(rng, rng.choice([2, 3])))
+    npts = [len(b['knots']) - b['order'] for b in bases]
+    patches = []
+    for cell in cells:
+        def lat_of(idx, cell=cell):
+            return tuple(cell[d] * L + (idx[d] * L) // (npts[d] - 1) for d in range(pardim))
+        patches.append(cx.patch_from_lattice(rng, geom, lat_of, npts, bases))
+    return {'family': family, 'pardim': pardim, 'dim': dim, 'patches': patches, 'flags': ['repeated-knots']}
 
 
 def unit_box(off, pardim=3, dim=3, npts=2):
@@ -374,8 +404,33 @@ def gen_two_volumes(rng, tier):
     return specs
 
 
+def gen_repeated_knots(rng, tier):
+    """Numbering / cells / connections on patches whose number of knot spans is NOT n - p + 1."""
+    specs = []
+    for i in range(36 if tier == 'quick' else 300):
+        pardim = [2, 3, 2][i % 3]
+        fam = rng.choice(['grid', 'grid', 'L', 'T', 'diag'])
+        if fam == 'grid':
+            cells = cx.grid_cells(rng.choice([(1, 1), (2, 1), (1, 2), (2, 2)]) if pardim == 2 else
+                                  rng.choice([(1, 1, 1), (2, 1, 1), (1, 2, 1), (1, 1, 2)]))
+        else:
+            cells = cx.SHAPES_2D[fam]
+            if pardim == 3:
+                cells = cx.extrude_cells(cells, 1)
+        dim = 3 if pardim == 3 else rng.choice([2, 2, 3])
+        base = repeated_knot_complex(rng, pardim, dim, cells, rational=rng.random() < 0.15, jitter=rng.random() < 0.8,
+                                     family=fam + ('-shape' if fam != 'grid' else '') + '-repeated-knots')
+        c = scramble(rng, base, want_linked=rng.random() < 0.7)
+        s = finish(c, ['num', 'cps', 'ifem', 'plans'], level=1)
+        if any(p['rational'] for p in s['patches']) and c17.vertex_alias(s):
+            continue
+        specs.append(s)
+    return specs
+
+
 def generate(rng, tier):
-    return witnesses() + gen_two_volumes(rng, tier) + gen_numbering(rng, tier) + gen_faces(rng, tier)
+    return (witnesses() + gen_two_volumes(rng, tier) + gen_repeated_knots(rng, tier) + gen_numbering(rng, tier)
+            + gen_faces(rng, tier))
 
 
 # ---------------------------------------------------------------------------------------------
@@ -995,6 +1050,8 @@ def tags(s, res):
         out.append('reoriented')
     if max(max(b['order'] for b in p['bases']) for p in s['patches']) > 2:
         out.append('order>2')
+    if any(cell_shape(p) != [len(b['knots']) - 2 * b['order'] + 1 for b in p['bases']] for p in s['patches']):
+        out.append('cells:repeated-interior-knots')
     iv = res['impl']
     if isinstance(iv, Err):
         out.append('raises:' + iv.kind)
